@@ -103,6 +103,9 @@ func MatchMain(eng *Engine) (bind inputrc.Bind, command func(), prefix bool) {
 }
 
 func (m *Engine) dispatchKeys(binds map[string]inputrc.Bind) (bind inputrc.Bind, prefix bool, read, matched []byte) {
+	// Number of keys that matched the shorter bind kept for later, if any.
+	var kept int
+
 	for {
 		// Read a single byte from the input buffer.
 		// This mimics the way Bash reads input when the inputrc option `byte-oriented` is set.
@@ -132,6 +135,12 @@ func (m *Engine) dispatchKeys(binds map[string]inputrc.Bind) (bind inputrc.Bind,
 			// an empty byte.
 			core.PopKey(m.keys)
 
+			// Only the keys of the shorter bind we fall back
+			// on have been used: the others are still to be read.
+			if m.active.Action != "" && kept <= len(matched) {
+				matched = matched[:kept]
+			}
+
 			break
 		}
 
@@ -148,6 +157,7 @@ func (m *Engine) dispatchKeys(binds map[string]inputrc.Bind) (bind inputrc.Bind,
 
 			if match.Action != "" {
 				m.prefixed = match
+				kept = len(matched)
 			}
 
 			continue
